@@ -1,8 +1,8 @@
 /-
-Retry numbers are contiguous (histories without foreign pods; index hashes `WF2`): in every Job version
-the refs of an index carry the retry numbers `0 .. k-1`, `k ≤ maxAttempts`, and for every pod of the Job
-(server, pod cache, undelivered upsert) all lower retry numbers of its index are recorded in the
-authoritative status.  Core Lean only.
+Retry numbers are contiguous (ALL actions, foreign pods included; index hashes `WF2`): in every Job
+version the refs of an index carry the retry numbers `0 .. k-1`, `k ≤ maxAttempts`, and for every pod
+CONTROLLED BY the Job (server, pod cache, undelivered upsert) all lower retry numbers of its index are
+recorded in the authoritative status.  Core Lean only.
 -/
 import FurikoModel.Proofs.JobCtlInvNames
 import FurikoModel.Proofs.JobCtlInvGone
@@ -54,7 +54,7 @@ theorem attempts_below_next {j0 : JobObj} {d : PIndex} {refs : List TaskRef} (hc
 /-- the refs of the status `sync` computes are contiguous -/
 theorem sync_contig {j0 : JobObj} (sp : Sys) (jo : JobObj) (hwf : WF2 j0 sp.d) (hp : PodsGood j0 sp)
     (hjo : VerOK j0 jo) (hg : Good j0 sp.d jo.job) (hc : Contig j0 sp.d jo.job.status.tasks)
-    (hdown : ∀ c ∈ sp.podCache, PodDown sp.d jo.job.status.tasks c) :
+    (hdown : ∀ c ∈ sp.podCache, c.ownerUid = some j0.uid → PodDown sp.d jo.job.status.tasks c) :
     Contig j0 sp.d (sync sp jo).2.1.status.tasks := by
   have hgood := (sync_good sp jo hwf hp hjo hg).1
   have hnok := sync_nok sp jo hwf hp hjo hg
@@ -80,6 +80,7 @@ theorem sync_contig {j0 : JobObj} (sp : Sys) (jo : JobObj) (hwf : WF2 j0 sp.d) (
       have := mono (h3 i h0 hi)
       rw [hs.1] at this; exact this
     · -- the name of a creation request
+      replace hreq := (List.mem_filter.mp hreq).1
       unfold reqNamesOf at hreq
       cases hreqs : computeMissingIndexesForCreation sp.d jo.job (jo.job.indexes sp.d) with
       | none => rw [hreqs] at hreq; cases hreq
@@ -106,22 +107,23 @@ theorem sync_contig {j0 : JobObj} (sp : Sys) (jo : JobObj) (hwf : WF2 j0 sp.d) (
           · intro i h0 hi
             rw [hhash]
             exact mono (attempts_below_next hc idx.hash i h0 (by rw [← hret]; exact hi))
-  · -- the name of a cached pod
-    obtain ⟨c, hcm, hcn⟩ := List.mem_map.mp hmem
-    obtain ⟨_, ⟨idx', retry', hi', h0', hmax', hcname, hcpi, hcri⟩, _⟩ := hp.cache c hcm
+  · -- the name of a cached pod that is controlled by the Job
+    obtain ⟨c, hcm, hco, hcn⟩ := ownedNames_mem hmem
+    have hco' : c.ownerUid = some j0.uid := hjo.uid ▸ hco
+    obtain ⟨⟨idx', retry', hi', h0', hmax', hcname, hcpi, hcri⟩, _⟩ := hp.cache c hcm hco'
     rw [hcname, hname] at hcn
     have hinj := taskName_inj (hwf.noDash _ hi') (hwf.noDash _ hidx) hcn
     refine ⟨by rw [← hinj.2]; exact h0', by rw [← hinj.2]; exact hmax', ?_⟩
     intro i h0 hi
     rw [hhash, ← hinj.1]
-    exact mono (hdown c hcm idx' retry' hcpi hcri i h0 (by rw [hinj.2]; exact hi))
+    exact mono (hdown c hcm hco' idx' retry' hcpi hcri i h0 (by rw [hinj.2]; exact hi))
 
 /-! ### the invariant -/
 
 structure Inv4 (j0 : JobObj) (s : Sys) : Prop where
   contig : ∀ v, (s.job = some v ∨ v ∈ seenVers s) → Contig j0 s.d v.job.status.tasks
   down : ∀ j, s.job = some j → ∀ p, (p ∈ s.pods ∨ p ∈ s.podCache ∨ PEv.upsert p ∈ s.podEvs) →
-    PodDown s.d j.job.status.tasks p
+    p.ownerUid = some j0.uid → PodDown s.d j.job.status.tasks p
   le : ∀ v ∈ seenVers s, ∀ j, s.job = some j → ∀ n ∈ refNames v.job, n ∈ refNames j.job
 
 /-- objects and pod side unchanged (or shrinking), the set of visible versions does not grow -/
@@ -165,8 +167,8 @@ theorem Inv4.jobWrite {j0 : JobObj} {s s' : Sys} {cur nj : JobObj} (h : Inv4 j0 
     rw [hw.job] at hj; cases hj
     rw [hw.pods, hw.static.podCache, hw.podEvs] at hp
     rw [hd]
-    intro idx retry hpi hri i h0 hi
-    exact hasAttempt_mono hwf (h2.job cur hcur).refs hgood.refs hnames (h.down cur hcur p hp idx retry hpi hri i h0 hi)
+    intro ho idx retry hpi hri i h0 hi
+    exact hasAttempt_mono hwf (h2.job cur hcur).refs hgood.refs hnames (h.down cur hcur p hp ho idx retry hpi hri i h0 hi)
   · intro v hv j hj
     rw [hw.job] at hj; cases hj
     rw [hseen] at hv
@@ -180,7 +182,7 @@ theorem Inv4.podChange {j0 : JobObj} {s s' : Sys} (h : Inv4 j0 s) (hst : Static 
     (hjevs : s'.jobEvs = s.jobEvs)
     (hpods : ∀ p, (p ∈ s'.pods ∨ p ∈ s'.podCache ∨ PEv.upsert p ∈ s'.podEvs) →
       (p ∈ s.pods ∨ p ∈ s.podCache ∨ PEv.upsert p ∈ s.podEvs) ∨
-      ∀ j, s.job = some j → PodDown s.d j.job.status.tasks p) : Inv4 j0 s' := by
+      ∀ j, s.job = some j → p.ownerUid = some j0.uid → PodDown s.d j.job.status.tasks p) : Inv4 j0 s' := by
   have hseen := seenVers_congr hst.jobCache hjevs
   refine ⟨?_, ?_, ?_⟩
   · intro v hv
